@@ -466,7 +466,9 @@ impl BitMachine {
 
             Ok(value)
         } else {
-            Ok(Value::unit())
+            // The target type has no bits, but it is not necessarily the unit type
+            // (e.g. `1 × 1`). The only value of such a type is its zero value.
+            Ok(Value::zero(&program.arrow().target))
         }
     }
 
